@@ -246,8 +246,12 @@ def judge(hdr, ops, tree, config, rejections, stats):
                 continue
             before, after = last[op.inst], op.snap
             # C02_noop: a step with nothing queued and no request issued anywhere changes nothing
+            issued = any(e[0] == 'log' and e[1] == 'T' for e in op.events) or \
+                any(e[0] == 'cb' and any(a.startswith('Q') for a in actions_of(e)) for e in op.events)
+            # without a logger the plan executor's requests are invisible: judge only plan-free steps then
+            blind = str(hdr.get('config', {}).get('log', '1')) == '0' and before.get('PL', '').strip('|') != ''
             if op.name in ('update', 'react') and int(before['A'], 16) & 1 and before.get('Q') == '[]' \
-                    and not any(e[0] == 'log' and e[1] == 'T' for e in op.events):
+                    and not issued and not blind:
                 stats.inc('checks_' + PID)
                 stats.inc('c02_judged_noop')
                 if (before['A'], before['R'], before['S']) != (after['A'], after['R'], after['S']):
